@@ -133,6 +133,10 @@ func genFormatCase(c *core.Ctx, r *core.Rand, format string, allowMalformed bool
 		c.Inc("big_inputs")
 	}
 	cs.mode = r.Pick(gen.ModePass, gen.ModeFailing, gen.ModeFilter, gen.ModeCopy, gen.ModeRich, gen.ModeFloat)
+	if cs.mode == gen.ModeFilter && r.Chance(1, 3) {
+		// a target filter that compares numerically; some records carry "x", "NaN", ... there
+		k.Filter = r.Pick("n >= 1", "not(n < 1)", "n > 0 or n = 'x'")
+	}
 	cs.schema = k.Schema(cs.mode)
 	o := gen.RenderOpts{NoFinalTerminator: r.Chance(1, 3), BlankLines: r.Chance(1, 3), CRLF: r.Chance(1, 3), BOM: r.Chance(1, 5)}
 	if o.BOM {
